@@ -7,7 +7,7 @@ operation that should return a new table shows up on the very next line.
 """
 import datetime, copy as _copy
 from .. import proto
-from ..proto import enc, hexs
+from ..proto import enc, hexs, enck, deck, key_name, name_key
 from ..engine import Finding, Timeout
 
 ID = 'C01'
@@ -35,6 +35,11 @@ NAMES = ['a', 'b', 'c', 'd']
 # d[key] = value and targets of relabel - and swallowed wherever the code expands the columns into keywords
 RNAMES = ['data', 'columns', 'key']      # `key`: Dict.__call__ offers every callable `key = <name of the new column>` as a default
 CELLS = [None, None, 0, 1, 2, 3, -1, 7, 1.0, 2.5, -0.25, 0.5, 'x', 'y', 'zz', '', D(2020, 1, 1), D(2021, 6, 30, 12)]
+KEYS = [1.5, 2.5, -0.25, None, D(2020, 1, 1), D(2021, 6, 30, 12)]      # column keys that are not strings (1.0 is the dict key 1 / True, NaN keys go by identity: left out)
+
+
+def tagged(c):
+    return c[:1] == '\x00'
 MAXH = 6
 
 
@@ -113,7 +118,7 @@ def _colval(x):
 
 def _dict(x, f=proto.dec):
     assert x[0] == 'D'
-    return {proto.unhex(kv[0]): f(kv[1]) for kv in x[1:]}
+    return {name_key(proto.unhex(kv[0])): f(kv[1]) for kv in x[1:]}
 
 
 def _ident(name):
@@ -180,8 +185,8 @@ def apply_op(state, sx):
         return ('unit', None)
 
     if op == 'new':
-        data = proto.dec(args[1]) if args[1] != 'N' else None
-        columns = proto.dec(args[2]) if args[2] != 'N' else None
+        data = deck(args[1]) if args[1] != 'N' else None
+        columns = deck(args[2]) if args[2] != 'N' else None
         kwargs = _dict(args[3])
         if columns is None:
             t = dictable(data, **kwargs) if data is not None else dictable(**kwargs)
@@ -189,10 +194,10 @@ def apply_op(state, sx):
             t = dictable(data, columns, **kwargs)
         return put(args[0], t)
     if op == 'setitem':
-        state[_h(args[0])][proto.dec(args[1])] = _colval(args[2])
+        state[_h(args[0])][deck(args[1])] = _colval(args[2])
         return ('unit', None)
     if op == 'delitem':
-        del state[_h(args[0])][proto.dec(args[1])]
+        del state[_h(args[0])][deck(args[1])]
         return ('unit', None)
     if op == 'update':
         state[_h(args[0])].update(_dict(args[1]))
@@ -204,20 +209,20 @@ def apply_op(state, sx):
     if op == 'row':
         return ('val', state[_h(args[0])][proto.dec(args[1])])
     if op == 'col':
-        return ('val', state[_h(args[0])][proto.dec(args[1])])
+        return ('val', state[_h(args[0])][deck(args[1])])
     if op == 'iter':
         return ('val', list(state[_h(args[0])]))
     if op == 'tup':
-        return ('val', state[_h(args[0])][proto.dec(args[1])])
+        return ('val', state[_h(args[0])][deck(args[1])])
     if op == 'apply':
         return ('val', state[_h(args[0])][_fn(args[1])])
     if op == 'slice':
         t = state[_h(args[1])]
         return put(args[0], t[slice(_slice_arg(args[2]), _slice_arg(args[3]), _slice_arg(args[4]))])
     if op in ('mask', 'take', 'proj'):
-        return put(args[0], state[_h(args[1])][proto.dec(args[2])])
+        return put(args[0], state[_h(args[1])][deck(args[2])])
     if op == 'sub':
-        ks = proto.dec(args[2])
+        ks = deck(args[2])
         return put(args[0], state[_h(args[1])] - (ks[0] if len(ks) == 1 else ks))       # one key is passed as a scalar
     if op == 'call':
         return put(args[0], state[_h(args[1])](**_dict(args[2], _callarg)))
@@ -228,7 +233,7 @@ def apply_op(state, sx):
     if op == 'do':
         t = state[_h(args[1])]
         f = _dofn(args[2])
-        return put(args[0], t.do(f) if args[3] == 'N' else t.do(f, proto.dec(args[3])))
+        return put(args[0], t.do(f) if args[3] == 'N' else t.do(f, deck(args[3])))
     if op == 'concat':
         hs = [_h(a) for a in args[1][1:]]
         res = dictable.concat([state[k] for k in hs])
@@ -261,7 +266,7 @@ def apply_op(state, sx):
 
 
 def dump(state):
-    return '(L' + ''.join(' ' + enc(dict(t)) for t in state) + ')'
+    return '(L' + ''.join(' ' + enck(dict(t)) for t in state) + ')'
 
 
 DST_OPS = ('new', 'slice', 'mask', 'take', 'proj', 'sub', 'call', 'relabel', 'do', 'concat', 'add', 'addrec', 'copy', 'inc0', 'alias')
@@ -301,6 +306,17 @@ def run_line(state, sx):
                 return 'void'
         except Exception:
             pass
+    if sx[1] == 'relabel' and handles_ok(state, sx) and len(sx) == 6 and sx[4] != 'N':
+        # an affix is concatenated to every column name: a table with a key that is not a string cannot take it (TypeError by construction, not
+        # a statement about records).  The generator keeps affixes to string-named tables through its shadow; this guard looks at the real table
+        # (the shadow can be off after an operation whose outcome it mispredicted).  The rest of the history is not compared.
+        try:
+            if any(not isinstance(c, str) for c in state[_h(sx[3])].keys()):
+                _VOID.add(id(state))
+                EXTRA['affix_on_keyed_table_histories_cut'] = EXTRA.get('affix_on_keyed_table_histories_cut', 0) + 1
+                return 'void'
+        except Exception:
+            pass
     if not handles_ok(state, sx):
         return 'bad-op'
     try:
@@ -308,7 +324,7 @@ def run_line(state, sx):
         if r is None:
             return 'bad-op'
         kind, v = r
-        out = 'N' if kind == 'unit' else ('(alias I:%d)' % v if kind == 'alias' else enc(v))
+        out = 'N' if kind == 'unit' else ('(alias I:%d)' % v if kind == 'alias' else enck(v))
     except (Timeout, proto.Unencodable, AssertionError):
         raise
     except Exception as e:
@@ -367,6 +383,14 @@ class Shadow(object):
         self.t = []       # list of [cols, n]
         self.lines = []
         self.tags = set()
+        # one history in eight works on tables with column KEYS that are not strings (a float, None, a datetime: what xyz / pivot make of y values, or
+        # the keys of a dict of columns).  On the wire and in the model such a key is NAMED U+0000 + its atom (proto.key_name); the runner hands the
+        # implementation the real key.  Where the API cannot take such a key (keyword arguments, a list of names d[[..]] - read as a mask / int list -,
+        # `d - None`, an affix) the generator uses the string columns only.
+        self.keyed = rng.random() < 0.125
+        self.pool = NAMES + ([key_name(k) for k in rng.sample(KEYS, rng.choice([1, 2, 3]))] if self.keyed else [])
+        if self.keyed:
+            self.tags.add('keyed-columns')
 
     # -- values
     def cell(self):
@@ -426,7 +450,7 @@ class Shadow(object):
         return self.rng.randrange(len(self.t))
 
     def names(self, k):
-        return self.rng.sample(NAMES, k)
+        return self.rng.sample(self.pool, k)
 
 
 def kv(d, f=enc):
@@ -473,6 +497,8 @@ def g_new(S, dst=None, allow_bad=True):
         else:
             S.emit('(tbl new h%d %s N (D))', dst, enc([list(hdr)] + rows))
         return
+    if r < 0.35 and any(tagged(c) for c in cols):
+        r = 0.4         # keyword arguments are strings: a dict of columns instead
     if r < 0.35:        # keyword columns with scalar / length-1 broadcast
         d = {}
         m = n
@@ -570,7 +596,7 @@ def g_op(S):
         return g_new(S)
     if r < 0.22:        # column assignment
         q = rng.random()
-        key = rng.choice(NAMES) if q < 0.87 else rng.choice(RNAMES) if q < 0.95 else rng.choice([1, 2])
+        key = rng.choice(S.pool) if q < 0.87 else rng.choice(RNAMES) if q < 0.95 else rng.choice([1, 2])
         name = str(key)
         if key in RNAMES:
             S.tags.add('reserved-name')
@@ -708,17 +734,20 @@ def g_op(S):
                 ks = [rng.choice(cols)]
             else:
                 ks = list(dict.fromkeys([rng.choice(cols + [absent(cols)]) for _ in range(rng.choice([2, 3]))]))
+            if key_name(None) in ks:
+                ks = [absent(cols)]                       # `d - None` subtracts nothing (as_list(None) == []): the key None cannot be named here
             S.emit('(tbl sub h%d h%d %s)', dst, h, enc(ks))
             rest = [c for c in cols if c not in ks]
             S.bind(dst, rest, n if rest else 0)
             S.tags.add('sub')
             return
-        if cols and rng.random() < 0.85:
-            ks = [rng.choice(cols) for _ in range(rng.choice([1, 2, 2, 3]))]
+        scols = [c for c in cols if not tagged(c)]      # d[[1.5, 'a']] is not a list of names to the code (ValueError): string columns only
+        if scols and rng.random() < 0.85:
+            ks = [rng.choice(scols) for _ in range(rng.choice([1, 2, 2, 3]))]
             S.emit('(tbl proj h%d h%d %s)', dst, h, enc(ks))
             S.bind(dst, [c for i, c in enumerate(ks) if c not in ks[:i]], n)
         else:
-            S.emit('(tbl proj h%d h%d %s)', dst, h, enc([absent(cols)] + cols[:1]))
+            S.emit('(tbl proj h%d h%d %s)', dst, h, enc([absent(cols)] + scols[:1]))
             S.tags.add('proj-missing')
         return
     if r < 0.82:        # derived columns
@@ -739,7 +768,7 @@ def g_op(S):
             S.tags.add('call-missing-parameter')
             return
         if q < 0.16:    # circular
-            x, y = S.names(2)
+            x, y = rng.sample(NAMES, 2)
             items = {x: fn_spec('idcol', y), y: fn_spec('idcol', x)}
             S.emit('(tbl call h%d h%d %s)', dst, h, kv(items, str))
             S.tags.add('call-circular')
@@ -786,13 +815,16 @@ def g_op(S):
         return
     if r < 0.86:        # renaming
         q = rng.random()
+        scols = [c for c in cols if not tagged(c)]      # an affix is added to strings, keyword arguments are strings: tables of string columns / the string columns only
+        if len(scols) < len(cols):
+            q = max(q, 0.3)
         if q < 0.3:
             affix = rng.choice(['x_', '_x', 'x'])
             S.emit('(tbl relabel h%d h%d %s (D))', dst, h, enc(affix))
             new = [c + affix if affix.startswith('_') else affix + c if affix.endswith('_') else c for c in cols]
         else:
             pool = [c for c in NAMES + ['e', 'f'] + RNAMES + RNAMES if c not in cols]
-            olds = rng.sample(cols, min(len(cols), rng.choice([1, 1, 2]))) if cols else []
+            olds = rng.sample(scols, min(len(scols), rng.choice([1, 1, 2]))) if scols else []
             mp = {}
             for o in olds:
                 if pool:
@@ -805,8 +837,8 @@ def g_op(S):
             # `dictable([dict(d='zz'), dict(b=3)]).relabel(b='d')` keeps either column. Proved on the model (abs_relabel_any).
             if rng.random() < 0.2:
                 mp[absent(cols)] = absent(cols + [absent(cols)])      # renaming a column that is not there changes nothing
-            if len(cols) >= 2 and rng.random() < 0.1:
-                x, y = rng.sample(cols, 2)
+            if len(scols) >= 2 and rng.random() < 0.1:
+                x, y = rng.sample(scols, 2)
                 mp = {x: y, y: x}      # a swap
                 S.tags.add('relabel-swap')
             S.emit('(tbl relabel h%d h%d N %s)', dst, h, kv(mp))
